@@ -85,7 +85,9 @@ func (a Any) SemanticTokens(ctx context.Context) []lang.SemanticToken {
 		}
 
 		cons := schema.Object{
-			Attributes:            ctyObjectToObjectAttributes(typ),
+			// attribute values may be arbitrary expressions of the
+			// attribute's type (incl. references), not just literals
+			Attributes:            ctyObjectToAnyExprObjectAttributes(typ),
 			AllowInterpolatedKeys: true,
 		}
 		return newExpression(a.pathCtx, expr, cons).SemanticTokens(ctx)
